@@ -225,3 +225,24 @@ func init() {
 	props["C02"] = &propDef{header: "From BE Require Import Corr.CheckC02.", rule: e2eRule + "; compact builder, biased to mixed sizes in one cursor set and early exit", shardSize: 25,
 		gen: gen("compact", false, true), exec: execE2E}
 }
+
+func init() {
+	props["C04"] = &propDef{header: "From BE Require Import Corr.CheckC04.",
+		rule:      e2eRule + "; both posting-list index types with a recording ResultCollector, biased to documents with several simultaneously satisfied conjunctions of equal and different sizes; the roaring scanner's raw result is covered by the roaring cases of C03/C15 that C04 re-runs",
+		shardSize: 25,
+		gen: func(tier string, r *Rand, add func(in interface{})) {
+			n := 40
+			if tier == "thorough" {
+				n = 3000
+			}
+			for i := 0; i < n; i++ {
+				kind := "kgroups"
+				if i%2 == 1 {
+					kind = "compact"
+				}
+				o := &docsetOpts{kind: kind, nFields: 1 + r.Intn(4), maxDocs: 8, multiSat: true, valueShape: intsShape, queryShape: intsShape}
+				add(genDocset(r, o))
+			}
+		},
+		exec: execE2E}
+}
